@@ -349,6 +349,27 @@ func c10Discard(c *Ctx) {
 		r, _ := loadedField(cs.In.Common().Value)
 		c.check(r == "SizedByteArray.msgHandler", rule, "startParseMessage/handler-of-this-datagram", w.ipos(cs.In), "the handler that came with this datagram (its source address) is used", "the handler invoked is not the one that arrived with the datagram")
 	}
+	// or the handler is called in the parse loop itself, with a raw message built from this datagram's own source fields
+	if n == 0 {
+		for _, cs := range w.callsIn(f, "MessageHandler.HandleRawMessage") {
+			n++
+			c.check(w.requires(f, cs.In, errNil(pm), true), rule, "startParseMessage/handler-only-on-success", w.ipos(cs.In), "the handler runs only for decodable datagrams", "the message handler is called although ParseMessage failed: a truncated or over-declaring datagram is processed instead of being discarded")
+			nr := w.resultOfCallTo(cs.In.Common().Args[0], "NewRawMessage", 0)
+			okMsg, okSrc := false, false
+			if nr != nil {
+				for _, a := range nr.Call.Args {
+					if isResultOf(a, pm, 0) {
+						okMsg = true
+					}
+				}
+				r0, _ := loadedField(nr.Call.Args[0])
+				r1, _ := loadedField(nr.Call.Args[1])
+				okSrc = strings.HasPrefix(r0, "SizedByteArray.") && strings.HasPrefix(r1, "SizedByteArray.") && r0 != r1
+			}
+			c.check(okMsg, rule, "startParseMessage/handler-gets-parsed-message", w.ipos(cs.In), "the handler receives the message parsed from this datagram", "the handler is not given the message ParseMessage returned")
+			c.check(okSrc, rule, "startParseMessage/handler-of-this-datagram", w.ipos(cs.In), "the source address that came with this datagram is used", "the raw message is not built from the source address and port that arrived with the datagram")
+		}
+	}
 	c.check(n == 1, rule, "startParseMessage/handler-call", w.pos(f.Pos()), "one handler call", fmt.Sprintf("%d handler calls", n))
 	// the closure built by the receive loop carries this datagram's source (shared with C07.3)
 	c.floor(rule, 4)
